@@ -299,12 +299,23 @@ def summarize(prop, rep, traces, concrete, results, devs):
                 else:
                     rep.note("trace %s step %d violates %s (%s) - reported by that property's check"
                              % (tidv, v["i"], v["p"], v["w"]))
+                    os.makedirs(os.path.join(common.OUT_DIR, "other"), exist_ok=True)
+                    json.dump({"property": v["p"], "clause": v["w"], "detail": v["d"], "step": v["i"],
+                               "job": tr.get("job"), "config": tr.get("cfg"),
+                               "requests": concrete.get(tidv), "trace": tr},
+                              open(os.path.join(common.OUT_DIR, "other", "%s-from-%s-%s-%s.json"
+                                                % (v["p"], prop, tidv, v["i"])), "w"))
             elif v["k"] == "known":
                 if v["p"] == prop:
                     f = devs.get(v["w"], {})
                     rep.known_finding(v["w"], f.get("what", v["w"]))
             elif v["k"] == "note":
                 rep.note("trace %s step %d: %s %s" % (tidv, v["i"], v["w"], v["d"][:200]))
+                os.makedirs(os.path.join(common.OUT_DIR, "other"), exist_ok=True)
+                json.dump({"property": v["p"], "clause": v["w"], "detail": v["d"], "step": v["i"],
+                           "job": tr.get("job"), "config": tr.get("cfg"),
+                           "requests": concrete.get(tidv), "trace": tr},
+                          open(os.path.join(common.OUT_DIR, "other", "note-%s-%s-%s.json" % (prop, tidv, v["i"])), "w"))
         # coverage accounting: distinct abstract steps (op, response class, why it matters)
         for ev in tr["events"]:
             sig = (ev["op"], ev["resp"]["cls"], ev.get("im", {}).get("present", False),
